@@ -200,10 +200,13 @@ macro_rules! Header {
                 self.get(name)
             }
             pub fn get(&self, name: &str) -> Option<&str> {
-                let value = self.custom.as_ref()?
-                    .get(&Slice::from_bytes(name.as_bytes()))
+                let value = self.custom.as_ref()
+                    .and_then(|custom| custom.iter()
+                        .find(|(k, _)| unsafe {k.as_bytes()}.eq_ignore_ascii_case(name.as_bytes()))
+                        .map(|(_, v)| v)
+                    )
                     .or_else(|| {
-                        let standard = Header::from_bytes(name.as_bytes())?;
+                        let standard = Header::from_bytes_ignore_case(name.as_bytes())?;
                         unsafe {self.standard.get(standard as usize)}
                     })?;
                 Some(std::str::from_utf8(unsafe {value.as_bytes()}).expect("Header value is not UTF-8"))
